@@ -61,7 +61,16 @@ def plan(tier, seed):
 
 SCRIPT = """import subprocess
 hist = {hist!r}
-code = "import sys, importlib; sys.path.insert(0, sys.argv[1])\\nfor m in sys.argv[2:]: importlib.import_module(m)"
+code = '''import sys, importlib; sys.path.insert(0, sys.argv[1])
+for m in sys.argv[2:]:
+    name = m[5:] if m.startswith("from:") else m
+    if m.startswith("from:"):
+        ns = dict(); exec("from %s import %s as bound" % tuple(name.rsplit(".", 1)), ns); bound = ns["bound"]
+    else:
+        bound = importlib.import_module(name)
+    assert bound is sys.modules[name] and bound.__name__ == name, "%s: client name bound to %r" % (m, getattr(bound, "__name__", bound))
+    if "." in name: assert getattr(sys.modules[name.rsplit(".", 1)[0]], name.rsplit(".", 1)[1]) is bound, "%s: package attribute is another object" % m
+'''
 r = subprocess.run([sys.executable, "-I", "-c", code, sys.path[0]] + hist, capture_output=True, text=True)
 print(r.stderr[-800:])
 sys.exit(1 if r.returncode else 0)
@@ -71,6 +80,8 @@ sys.exit(1 if r.returncode else 0)
 def run_shard(shard, ctx):
     tier, seed = shard
     mods = modules()
+    # both client spellings of every import: `import chartparse.x` and `from chartparse import x`
+    ops = mods + ["from:" + m for m in mods if "." in m]
     pool = ThreadPoolExecutor(max_workers=core.NPROC)
     init = run_child([])
     states = {init["fingerprint"]: dict(rep=(), loaded=init["loaded"])}
@@ -81,7 +92,7 @@ def run_shard(shard, ctx):
     ctx.nodes += 0
     while frontier:
         depth += 1
-        jobs = [(fp, m, states[fp]["rep"] + (m,)) for fp in frontier for m in mods]
+        jobs = [(fp, m, states[fp]["rep"] + (m,)) for fp in frontier for m in ops]
         outs = list(pool.map(lambda j: run_child(j[2]), jobs))
         nxt = []
         for (fp, m, hist), out in zip(jobs, outs):
@@ -125,6 +136,9 @@ def run_shard(shard, ctx):
         return fp
 
     hists = [h for h in itertools.permutations(mods, 2)]
+    hists += [h for h in itertools.permutations(ops[len(mods):], 2)]
+    if tier == "thorough":
+        hists += [(a, b) for a in ops for b in ops if a != b and (a.startswith("from:") != b.startswith("from:")) and a[5:] != b and b[5:] != a]
     if tier == "thorough":
         hists += [h for h in itertools.permutations(mods, 3)]
         rnd = random.Random(seed)
@@ -143,7 +157,7 @@ def run_shard(shard, ctx):
         pf = predict(h)
         if pf is not None and pf != out["fingerprint"] and not failing:
             ctx.violation("merge-unsound", dict(history=list(h)), "history %r reaches module table %s but the merged graph predicts %s: two import orders give different namespaces" % (list(h), out["fingerprint"], pf))
-        if len(h) == len(mods) and full and out["fingerprint"] != full[0] and not bad:
+        if len(h) == len(mods) and set(h) == set(mods) and full and out["fingerprint"] != full[0] and not bad:
             ctx.violation("order-dependent-namespace", dict(history=list(h), other=list(states[full[0]]["rep"])), "full permutation %r leaves a different module table than %r" % (list(h), list(states[full[0]]["rep"])))
     pool.shutdown()
     # states / transitions of the merged graph (root is added by the runner); un-merged runs are traces
